@@ -237,12 +237,16 @@ class AsyncChannel(BaseChannel):
 
         _transport_args = self.transport._base_transport_args  # pylint: disable=W0212
         previous_timeout_transport = _transport_args.timeout_transport
-        _transport_args.timeout_transport = int(read_duration)
 
-        read_buf = BytesIO(buf)
-
-        start = time.time()
         try:
+            # set the temporary value inside the try: a timeout raised asynchronously (the SIGALRM
+            # handler of the ops timeout) between the assignment and the try would otherwise leave
+            # it in place for the rest of the connection
+            _transport_args.timeout_transport = int(read_duration)
+
+            read_buf = BytesIO(buf)
+
+            start = time.time()
             while True:
                 with suppress(ScrapliTimeout):
                     b = await self.read()
